@@ -73,7 +73,7 @@ Definition with_other_link : list (N * list (N * N * N)) := [(0, [(1, 0, 64)]); 
 Lemma C07_pinned_shared_handle_refuted :
   exists tx mt b1 b2,
     pbursts b1 3 = pbursts b2 3 /\
-    let run b := msteps pinned_f18 tx mt b 20 (minit b (fun _ => idle_chan) (fun _ => [])) in
+    let run b := msteps pinned_f18 (fun _ => tx) (fun _ => mt) b 20 (minit b (fun _ => [])) in
     In (IDeliver 1 174000000) (map snd (mlog (run b1))) /\
     In (IDropBusy 1 64 10000000) (map snd (mlog (run b2))) /\ ~ In (IDeliver 1 174000000) (map snd (mlog (run b2))).
 Proof.
@@ -83,6 +83,6 @@ Qed.
 
 (* ... while with one instance per direction and link it is delivered in both *)
 Lemma C07_repaired_shared_handle_same_scripts :
-  let run b := msteps own_instance (fun _ => 64000000) mt_8k b 20 (minit b (fun _ => idle_chan) (fun _ => [])) in
+  let run b := msteps own_instance (fun _ _ => 64000000) (fun _ => mt_8k) b 20 (minit b (fun _ => [])) in
   plog 3 (mlog (run alone)) = plog 3 (mlog (run with_other_link)) /\ In (IDeliver 1 174000000) (plog 3 (mlog (run with_other_link))).
 Proof. vm_compute. split; [reflexivity|intuition]. Qed.
